@@ -9,6 +9,8 @@ import (
 // errClasses is the fixed keyword table that reduces a goyang error message to a class.
 // First match wins.  The Lean models produce the same class names directly.
 var errClasses = []struct{ needle, class string }{
+	// wraps the inner resolution errors ("deviation has unresolvable type, [pos: unknown type …]")
+	{"unresolvable type", "deviate-bad-type"},
 	{"unknown type", "unknown-type"},
 	{"unknown prefix", "unknown-prefix"},
 	{"no YangType defined", "no-yangtype"},
@@ -42,7 +44,6 @@ var errClasses = []struct{ needle, class string }{
 	{"max-element value", "deviate-delete-max-mismatch"},
 	{"unknown deviation type", "deviate-unknown-kind"},
 	{"invalid deviation type", "deviate-unknown-kind"},
-	{"unresolvable type", "deviate-bad-type"},
 	{"does not have a valid parent", "deviate-no-parent"},
 	{"was already removed", "deviate-already-removed"},
 	{"invalid config value", "bad-tristate"},
